@@ -169,7 +169,11 @@ fn c05_parser_max_frame() {
 
 const S: usize = 8;
 
-//@ props: C05 C07 C20
+// ATTEMPTED AND INTRACTABLE (unregistered): end-to-end FramedReader::next_frame with a solver-chosen chunk size at every
+// read. Measured: 10-byte streams ran out of memory; 8-byte streams, alone on the machine, timed out at 40 min (24 GB).
+// Chunking-independence end to end is therefore carried only by the COMPOSITION of the two inductive steps
+// (parser step/resume and read_some step, each from an arbitrary state) - an argument, not a query.
+//@ props: ZZ
 //@ peer: yes
 //@ tier: thorough
 //@ timeout: 5400
